@@ -50,14 +50,17 @@ def _replay_state(st):
     L = lib().LU
     m, n = st["m"], st["n"]
     N = min(m, n)
-    A = np.array(st["A0"], dtype=np.float64).reshape(m, n, 4) / S
+    sc = 2.0 ** st.get("_scale_exp", 0)           # exact power-of-two scaling: L and P unchanged, U scaled
+    A = np.array(st["A0"], dtype=np.float64).reshape(m, n, 4) / S * sc
     mode = st["mode"]
     out = st["out"]
     sig = st["sigma"]
     order = "id" if sig == sorted(sig) else ("involution" if all(sig[sig[i] - 1] == i + 1 for i in range(m)) else "non-involutive")
     cls = "forced-order:%s" % order if st["sing"] == 0 else "singular-column"
+    if st.get("_scale_exp", 0):
+        cls += ":scaled"
     fails, drift = [], []
-    detail = {"A_times_4": st["A0"], "sigma": sig, "mode": mode, "sing": st["sing"]}
+    detail = {"A_times_4": st["A0"], "sigma": sig, "mode": mode, "sing": st["sing"], "scaled_by_pow2": st.get("_scale_exp", 0)}
     Aq = q_from_float(A)
     A_before = A.copy()
     try:
@@ -106,7 +109,7 @@ def _replay_state(st):
             fails.append(("quaternion_lu.mode3", "MultLeOne", cls, dict(detail, maxmult=mx)))
         if not out["raised"]:
             eL = np.array(out["L"], dtype=np.float64).reshape(m, N, 4) / S
-            eU = np.array(out["U"], dtype=np.float64).reshape(N, n, 4) / S
+            eU = np.array(out["U"], dtype=np.float64).reshape(N, n, 4) / S * sc
             eip = [x - 1 for x in out["IP"]]
             if not (np.array_equal(Lf, eL) and np.array_equal(Uf, eU) and ip == eip):
                 drift.append("mode3 factors differ from M's on %s" % cls)
@@ -222,9 +225,16 @@ def run(ctx, replay=None):
     res = ctx.model("LU", CFG % (maxm, "1, 2, 3" if thorough else "1, 2"), dump=True, timeout=1200)
     done = [s for s in res["states"] if s["pc"] == "done"]
     ctx.exhaustive = True
+    scaled = []
+    for i, st in enumerate(done):                 # every third class also as an exactly scaled replica (tiny / huge magnitudes)
+        if i % 3 == ctx.seed % 3:
+            s2 = dict(st)
+            s2["_scale_exp"] = (-60, 40, -20)[i % 3 if True else 0] if (i // 3) % 2 == 0 else (60, -40, 20)[i % 3]
+            scaled.append(s2)
+    done = done + scaled
     for st, (nv, fails, drift) in zip(done, par.pmap(_replay_state, done)):
         ctx.replays += nv
-        ctx.case(("F", st["m"], st["n"], str(st["sigma"]), st["sing"], st["mode"], str(st["L0"])))
+        ctx.case(("F", st["m"], st["n"], str(st["sigma"]), st["sing"], st["mode"], str(st["L0"]), st.get("_scale_exp", 0)))
         for fn, clause, cls, detail in fails:
             ctx.fail(fn, clause, cls, detail)
         ctx.drift += drift
